@@ -26,6 +26,7 @@ func Main(driver func(prop string) Driver, observeFn func(sc *Scenario, n int) s
 	flag.StringVar(&a.Tree, "tree", "", "description of the tree under test")
 	flag.StringVar(&a.Scratch, "scratch", "", "scratch dir (plain copy, binaries)")
 	flag.IntVar(&a.Limit, "limit", 0, "limit the number of items")
+	flag.StringVar(&a.Skip, "skip", "", "items to skip (internal)")
 	flag.IntVar(&regen, "regen", -1, "regenerate the base scenario of an item (internal)")
 	observe := flag.String("observe", "", "run a scenario natively and print its observables (plain binary)")
 	repeat := flag.Int("repeat", 1, "repetitions for -observe")
